@@ -75,6 +75,7 @@ where
     let mut s_ge = Shape::<F>::new_grad_slice_eval();
     let mut s_pe = Shape::<F>::new_point_eval();
     let mut workspace = F::Workspace::default();
+    let mut spare_trace = VmTrace::default();
     let mut spare_fn_storage: Vec<F::Storage> = vec![];
     let mut spare_tape_storage: Vec<F::TapeStorage> = vec![];
     let mut step_log: Vec<String> = vec![];
@@ -218,6 +219,18 @@ where
                 let t = rng.pick(&fns[k].traces).0.clone();
                 step_log.push(format!("simplify fn{k} (gen {}) with a {}-entry trace, {} spare storages", fns[k].generation, t.len(), spare_fn_storage.len()));
                 let tr = mk_trace(&t);
+                // the trace object itself is recycled as well: one long-lived
+                // trace receives every trace through `Trace::copy_from`
+                // (longer ones, shorter ones) and is what the real call uses
+                {
+                    use fidget_core::eval::Trace;
+                    spare_trace.copy_from(&tr);
+                    st.inc("trace_objects_recycled");
+                    if spare_trace != tr {
+                        return Err(viol("trace_copy", format!("a recycled trace object filled by copy_from ({} entries) is not equal to its source ({} entries)", spare_trace.as_slice().len(), tr.as_slice().len()), &step_log));
+                    }
+                }
+                let tr_real = spare_trace.clone();
                 let storage = if !spare_fn_storage.is_empty() && rng.chance(0.8) {
                     st.inc("fn_storage_reused");
                     let j = rng.below(spare_fn_storage.len());
@@ -226,7 +239,7 @@ where
                     F::Storage::default()
                 };
                 child::note(&format!("C10 {name} simplify | step {}", step_log.len()));
-                let real = guarded(|| fns[k].real.simplify(&tr, storage, &mut workspace));
+                let real = guarded(|| fns[k].real.simplify(&tr_real, storage, &mut workspace));
                 let shadow = guarded(|| fns[k].shadow.simplify(&tr, F::Storage::default(), &mut F::Workspace::default()));
                 let (real, shadow) = match (real, shadow) {
                     (Ok(Ok(a)), Ok(Ok(b))) => (a, b),
